@@ -1,12 +1,26 @@
 """C02 — HCI byte streams are re-framed into the same packets under any chunking."""
-from pyvc.contracts import (Bytes, ByteArray, Callback, Const, Inst, Int, OneOf, Opt, contract, model, iff)
-from spec.framing import body_len, hdr, is_frame, is_prefix, len_off, len_size, valid
+import asyncio
+
 from bumble import core
 from bumble.transport import common
+from pyvc.contracts import (Any, Bytes, ByteArray, Bool, Callback, ConcList, Const, Inst, Int, IntRange, OneOf, Opt,
+                            contract, iff, implies, lemma, model, at)
+from pyvc.replay import Stub
+from spec.framing import (body_len, hdr, is_frame, is_frame_k, is_partial, is_partial_k, is_prefix, le_at, len_off,
+                          len_size, valid)
+
+ENVIRONMENT = [
+    'asyncio transports / libusb callbacks deliver chunks in order (environment, not verified)',
+    'list-level conclusion (the emitted *list* is determined by the concatenated stream) is the induction over '
+    'lemmas unique_framing / frame_not_prefix_of_partial on paper; each step is a discharged obligation',
+]
 
 
-# ghost effect of the sink: every emitted packet must be a frame; ghost.out is the
-# concatenation of everything emitted so far, ghost.n the number of packets
+# ---------------------------------------------------------------------------
+# push parser
+# ---------------------------------------------------------------------------
+# ghost effect of a packet sink: every emitted packet must be a frame; ghost.out is
+# the concatenation of everything emitted so far, ghost.n the number of packets
 def sink_on_packet(ghost, p):
     assert is_frame(p)
     ghost.out = ghost.out + p
@@ -27,46 +41,50 @@ model(
         extended_packet_info=Const({}),
     ),
 )
+PARSER = Inst('bumble.transport.common:PacketParser')
 
 
 def info_matches(pi, t):
-    return pi is not None and pi[0] == len_size(t) and pi[1] + 1 == len_off(t) and iff(pi[2] == 'H', len_size(t) == 2) and (pi[2] == 'H' or pi[2] == 'B')
+    return (
+        pi is not None
+        and pi[0] == len_size(t)
+        and pi[1] + 1 == len_off(t)
+        and iff(pi[2] == 'H', len_size(t) == 2)
+        and (pi[2] == 'H' or pi[2] == 'B')
+    )
 
 
 def wf_parser(self):
+    """representation invariant: (state, bytes_needed, packet, packet_info) describe a
+    proper prefix of a frame"""
     p = self.packet
     return (
         (self.state == 0 and len(p) == 0 and self.bytes_needed == 1)
         or (
             self.state == 1
             and len(p) >= 1
-            and valid(p[0])
-            and info_matches(self.packet_info, p[0])
+            and valid(at(p, 0))
+            and info_matches(self.packet_info, at(p, 0))
             and self.bytes_needed >= 1
-            and len(p) + self.bytes_needed == 1 + hdr(p[0])
+            and len(p) + self.bytes_needed == 1 + hdr(at(p, 0))
         )
         or (
             self.state == 2
             and len(p) >= 1
-            and valid(p[0])
-            and len(p) >= 1 + hdr(p[0])
+            and valid(at(p, 0))
+            and len(p) >= 1 + hdr(at(p, 0))
             and self.bytes_needed >= 1
-            and len(p) + self.bytes_needed == 1 + hdr(p[0]) + body_len(p)
+            and len(p) + self.bytes_needed == 1 + hdr(at(p, 0)) + body_len(p)
         )
     )
 
 
-PARSER = Inst('bumble.transport.common:PacketParser')
-
-contract(
-    'bumble.transport.common:PacketParser.feed_data',
-    prop='C02',
+FEED = dict(
     params=dict(self=PARSER, data=Bytes),
     ghost=dict(out=Bytes, n=Int),
-    requires=lambda self, data: wf_parser(self),
     ensures=lambda self, data, old, ghost: [
         wf_parser(self),
-        # nothing lost, duplicated, reordered: emitted ++ partial == everything fed so far
+        # nothing lost, duplicated, reordered or early: emitted ++ partial == everything fed so far
         old.ghost.out + bytes(old.self.packet) + data == ghost.out + bytes(self.packet),
         ghost.n >= old.ghost.n,
     ],
@@ -74,11 +92,17 @@ contract(
     raises={
         core.InvalidPacketError: lambda self, data, old, ghost: [
             wf_parser(self),
-            self.state == 0,
+            self.state == 0,  # later well-formed data is framed from its first byte
             is_prefix(ghost.out, old.ghost.out + bytes(old.self.packet) + data),
         ]
     },
     modifies=['self.state', 'self.bytes_needed', 'self.packet', 'self.packet_info', 'ghost.out', 'ghost.n'],
+)
+
+contract(
+    'bumble.transport.common:PacketParser.feed_data',
+    prop='C02',
+    requires=lambda self, data: wf_parser(self),
     invariants={
         0: lambda self, data, data_offset, data_left, old, ghost: [
             wf_parser(self),
@@ -91,4 +115,296 @@ contract(
     },
     decreases={0: lambda data_left: data_left},
     inline=['PacketParser.reset'],
+    **FEED,
+)
+
+# derived contract (precondition strengthened: first chunk of a *new* client)
+contract(
+    'bumble.transport.common:PacketParser.feed_data',
+    key='bumble.transport.common:PacketParser.feed_data@fresh',
+    requires=lambda self, data: [wf_parser(self), self.state == 0],
+    **FEED,
+)
+
+model('bumble.transport.common:StreamPacketSource', fields=dict(parser=PARSER))
+SOURCE = Inst('bumble.transport.common:StreamPacketSource')
+
+contract(
+    'bumble.transport.common:StreamPacketSource.data_received',
+    prop='C02',
+    params=dict(self=SOURCE, data=Bytes),
+    ghost=dict(out=Bytes, n=Int),
+    requires=lambda self, data: wf_parser(self.parser),
+    ensures=lambda self, data, old, ghost: [
+        wf_parser(self.parser),
+        is_prefix(ghost.out, old.ghost.out + bytes(old.self.parser.packet) + data),
+    ],
+    modifies=['self.parser.state', 'self.parser.bytes_needed', 'self.parser.packet', 'self.parser.packet_info', 'ghost.out', 'ghost.n'],
+    uses=['bumble.transport.common:PacketParser.feed_data'],
+)
+
+
+# ---------------------------------------------------------------------------
+# pull readers: the source is a ghost stream ghost.S read from cursor ghost.c
+# ---------------------------------------------------------------------------
+def src_read(ghost, n):
+    r = ghost.S[ghost.c : ghost.c + n]
+    ghost.c = ghost.c + len(r)
+    return r
+
+
+def src_readexactly(ghost, n):
+    if ghost.c + n > len(ghost.S):
+        raise asyncio.IncompleteReadError(b'', n)
+    r = ghost.S[ghost.c : ghost.c + n]
+    ghost.c = ghost.c + n
+    return r
+
+
+model('io:BufferedReader', fields={}, methods={'read': Callback('read', effect=src_read)})
+model('asyncio.streams:StreamReader', fields={}, methods={'readexactly': Callback('readexactly', effect=src_readexactly, raises=(asyncio.IncompleteReadError,), is_async=True)})
+model('bumble.transport.common:PacketReader', fields=dict(source=Inst('io:BufferedReader'), at_end=Bool))
+model('bumble.transport.common:AsyncPacketReader', fields=dict(source=Inst('asyncio.streams:StreamReader')))
+
+contract(
+    'bumble.transport.common:PacketReader.next_packet',
+    prop='C02',
+    params=dict(self=Inst('bumble.transport.common:PacketReader')),
+    ghost=dict(S=Bytes, c=Int),
+    requires=lambda self, ghost: [0 <= ghost.c, ghost.c <= len(ghost.S)],
+    ensures=lambda self, res, old, ghost: [
+        (old.ghost.c == len(ghost.S) and self.at_end) if res is None else (is_frame(res) and res == ghost.S[old.ghost.c : ghost.c] and ghost.c == old.ghost.c + len(res)),
+        ghost.c <= len(ghost.S),
+    ],
+    raises={
+        # invalid type byte, or the stream ends inside a packet: nothing is returned as a packet
+        core.InvalidPacketError: lambda self, old, ghost: [
+            not valid(at(ghost.S, old.ghost.c)) or not is_frame(ghost.S[old.ghost.c : ghost.c]) and ghost.c == len(ghost.S)
+        ]
+    },
+    modifies=['self.at_end', 'ghost.c'],
+)
+
+contract(
+    'bumble.transport.common:AsyncPacketReader.next_packet',
+    prop='C02',
+    params=dict(self=Inst('bumble.transport.common:AsyncPacketReader')),
+    ghost=dict(S=Bytes, c=Int),
+    requires=lambda self, ghost: [0 <= ghost.c, ghost.c <= len(ghost.S)],
+    ensures=lambda self, res, old, ghost: [
+        is_frame(res),
+        res == ghost.S[old.ghost.c : ghost.c],
+        ghost.c == old.ghost.c + len(res),
+        ghost.c <= len(ghost.S),
+    ],
+    raises={
+        core.InvalidPacketError: lambda self, old, ghost: [not valid(at(ghost.S, old.ghost.c))],
+        asyncio.IncompleteReadError: lambda self, old, ghost: [ghost.c <= len(ghost.S)],
+    },
+    modifies=['ghost.c'],
+)
+
+
+# ---------------------------------------------------------------------------
+# USB per-endpoint splitter
+# ---------------------------------------------------------------------------
+def usb_emit(ghost, p):
+    assert is_frame_k(p, ghost.lo, ghost.ls)
+    ghost.out = ghost.out + p
+    ghost.n = ghost.n + 1
+
+
+model(
+    'bumble.transport.usb:PacketSplitter',
+    fields=dict(
+        emit=Callback('emit', effect=usb_emit),
+        packet=Bytes,
+        length_offset=IntRange(0, 8),
+        length_size=OneOf(1, 2),
+        header_size=Int,
+    ),
+)
+SPLITTER = Inst('bumble.transport.usb:PacketSplitter')
+
+
+def wf_splitter(self, ghost):
+    return (
+        self.header_size == self.length_offset + self.length_size
+        and ghost.lo == self.length_offset
+        and ghost.ls == self.length_size
+        and is_partial_k(self.packet, self.length_offset, self.length_size)
+    )
+
+
+contract(
+    'bumble.transport.usb:PacketSplitter.feed',
+    prop='C02',
+    params=dict(self=SPLITTER, data=Bytes),
+    ghost=dict(out=Bytes, n=Int, lo=Int, ls=Int),
+    requires=lambda self, data, ghost: wf_splitter(self, ghost),
+    ensures=lambda self, data, old, ghost: [
+        wf_splitter(self, ghost),
+        old.ghost.out + old.self.packet + data == ghost.out + self.packet,
+    ],
+    ensures_names=['wf', 'stream-preserved'],
+    modifies=['self.packet', 'ghost.out', 'ghost.n'],
+    invariants={
+        0: lambda self, data, old, ghost: [
+            wf_splitter(self, ghost),
+            old.ghost.out + old.self.packet + old.data == ghost.out + self.packet + data,
+        ]
+    },
+    decreases={0: lambda data: len(data)},
+)
+
+def _splitter_post(lo, ls):
+    return lambda self: [self.length_offset == lo, self.length_size == ls, self.header_size == lo + ls, self.packet == b""]
+
+
+for _cls, _lo, _ls in (('ScoPacketSplitter', 2, 1), ('EventPacketSplitter', 1, 1), ('AclPacketSplitter', 2, 2)):
+    # the three endpoint splitters are configured with the HCI header geometry of their
+    # packet kind (header without the UART type byte): SCO handle(2)+len(1), event
+    # code(1)+len(1), ACL handle(2)+len(2)
+    model('bumble.transport.usb:' + _cls, fields={})
+    contract(
+        f'bumble.transport.usb:{_cls}.__init__',
+        prop='C02',
+        params=dict(self=Inst('bumble.transport.usb:' + _cls), emit=Callback('emit', effect=usb_emit)),
+        ensures=_splitter_post(_lo, _ls),
+        modifies=['self.*'],
+        inline=['PacketSplitter.__init__'],
+    )
+
+
+# ---------------------------------------------------------------------------
+# server transports: a new client's stream is framed from its first byte
+# ---------------------------------------------------------------------------
+model('asyncio:Transport', fields={}, methods={'get_extra_info': Callback('get_extra_info', returns=Any)})
+for _name in (
+    'bumble.transport.tcp_server:_open_tcp_server_transport_impl.<locals>.TcpServerProtocol',
+    'bumble.transport.unix:open_unix_server_transport.<locals>.UnixServerProtocol',
+):
+    model(_name + '.sink', fields=dict(transport=Any))
+    model(_name, fields=dict(packet_source=SOURCE, packet_sink=Inst(_name + '.sink')))
+    contract(
+        _name + '.connection_made',
+        prop='C02',
+        params=dict(self=Inst(_name), transport=Inst('asyncio:Transport')),
+        requires=lambda self, transport: wf_parser(self.packet_source.parser),  # whatever the previous client left behind
+        ensures=lambda self, transport: [
+            wf_parser(self.packet_source.parser),
+            self.packet_source.parser.state == 0,
+        ],
+        ensures_names=['wf', 'framed-from-first-byte'],
+        modifies=[
+            'self.packet_sink.transport',
+            'self.packet_source.parser.state',
+            'self.packet_source.parser.bytes_needed',
+            'self.packet_source.parser.packet',
+            'self.packet_source.parser.packet_info',
+        ],
+        inline=['PacketParser.reset'],
+    )
+
+_WS = 'bumble.transport.ws_server:open_ws_server_transport.<locals>.WsServerTransport'
+model('bumble.transport.common:ParserSource', fields=dict(parser=PARSER))
+model(_WS, fields=dict(source=Inst('bumble.transport.common:ParserSource'), connection=Any))
+
+
+class _AIter(Stub):
+    def __init__(self, items):
+        self.items = list(items)
+        self.all = list(items)
+
+    def __getitem__(self, i):
+        return self.all[i]
+
+    def __aiter__(self):
+        return self
+
+    async def __anext__(self):
+        if not self.items:
+            raise StopAsyncIteration
+        return self.items.pop(0)
+
+
+def _ws_native(env):
+    env['connection'] = _AIter(env['connection'])
+
+
+contract(
+    _WS + '.on_connection',
+    prop='C02',
+    # the connection delivers one binary frame (the first chunk of the new client's stream)
+    params=dict(self=Inst(_WS), connection=ConcList(Bytes, 1)),
+    ghost=dict(out=Bytes, n=Int),
+    requires=lambda self, connection: wf_parser(self.source.parser),
+    ensures=lambda self, connection, old, ghost: [wf_parser(self.source.parser)],
+    ensures_names=['wf'],
+    raises={core.InvalidPacketError: None},
+    modifies=[
+        'self.connection',
+        'self.source.parser.state',
+        'self.source.parser.bytes_needed',
+        'self.source.parser.packet',
+        'self.source.parser.packet_info',
+        'ghost.out',
+        'ghost.n',
+    ],
+    # callee-pre of feed_data@fresh (parser.state == 0 at the first chunk) is the obligation
+    uses=['bumble.transport.common:PacketParser.feed_data@fresh'],
+    inline=['PacketParser.reset'],
+    native_setup=_ws_native,
+)
+
+
+# ---------------------------------------------------------------------------
+# lemmas: framing of a stream is unique (all framers find the same boundaries)
+# ---------------------------------------------------------------------------
+def lemma_unique_framing(s, a, b):
+    """two frames that are both prefixes of the same stream are the same frame"""
+    assert a == b
+
+
+lemma(
+    'unique_framing',
+    lemma_unique_framing,
+    prop='C02',
+    params=dict(s=Bytes, a=Int, b=Int),
+    requires=lambda s, a, b: [0 <= a, a <= len(s), 0 <= b, b <= len(s), is_frame(s[:a]), is_frame(s[:b])],
+)
+
+
+def lemma_frame_not_prefix_of_partial(s, a, b):
+    """a framer holding a partial packet s[:b] cannot have missed a frame s[:a] inside it"""
+    assert not (is_frame(s[:a]) and is_partial(s[:b]))
+
+
+lemma(
+    'frame_not_prefix_of_partial',
+    lemma_frame_not_prefix_of_partial,
+    prop='C02',
+    params=dict(s=Bytes, a=Int, b=Int),
+    requires=lambda s, a, b: [0 <= a, a <= b, b <= len(s)],
+)
+
+
+def lemma_wf_is_partial(self):
+    """the push parser's representation invariant says exactly: the buffer is a partial frame"""
+    assert is_partial(bytes(self.packet))
+
+
+lemma('wf_is_partial', lemma_wf_is_partial, prop='C02', params=dict(self=PARSER), requires=lambda self: wf_parser(self))
+
+
+def lemma_unique_framing_k(s, a, b, lo, ls):
+    assert a == b
+
+
+lemma(
+    'unique_framing_usb',
+    lemma_unique_framing_k,
+    prop='C02',
+    params=dict(s=Bytes, a=Int, b=Int, lo=IntRange(0, 8), ls=OneOf(1, 2)),
+    requires=lambda s, a, b, lo, ls: [0 <= a, a <= len(s), 0 <= b, b <= len(s), is_frame_k(s[:a], lo, ls), is_frame_k(s[:b], lo, ls)],
 )
